@@ -6,6 +6,7 @@ import (
 	"image/color"
 	"image/draw"
 	"math"
+	"runtime"
 
 	"github.com/reactivego/ivg"
 	"github.com/reactivego/ivg/decode"
@@ -75,25 +76,39 @@ type c02State struct {
 	// depCPU: CPU seconds of the current case spent in the pass that ends in
 	// golang.org/x/image/vector (not the library's work)
 	depCPU float64
+	// slow counts the inputs of this worker that exceeded the CPU-time bound
+	slow int
 }
 
 // c02WorkLimit bounds the CPU time all decodes of one input of at most 64 KiB
 // may take together (recorder, logger, Encoder, Renderer over the recording
 // rasterizer, DecodeViewBox, Disassemble). The unchanged tree needs well under a
 // millisecond per KiB; the bound is some thousand times that, in CPU time of
-// this process (a loaded machine does not inflate it). It turns "work is linear
+// the worker's own thread (a loaded machine does not inflate it, and the
+// garbage collector's background workers run on other threads). It turns "work is linear
 // in input length" into something observed per case: work that grows with the
 // magnitude of an operand is reported here within seconds, long before the
 // driver's non-termination watchdog.
-const c02WorkLimit = 5.0
+const c02WorkLimit = 2.0
 
 func c02Check(c *run.Ctx, st *c02State, b []byte, family string, salt uint64) []rec.Op {
+	if st.slow >= 8 {
+		// eight inputs of this worker have already been reported for their cost:
+		// the verdict is known, the rest of the shard is not paid for
+		c.Count("inputs_skipped_after_eight_work_violations", 1)
+		return nil
+	}
+	runtime.LockOSThread()
+	defer runtime.UnlockOSThread()
 	st.depCPU = 0
-	t0 := run.ProcessCPU()
+	t0 := run.ThreadCPU()
 	ops := c02CheckBody(c, st, b, family, salt)
 	if len(b) <= 1<<16 {
 		c.Count("inputs_with_cpu_time_bound", 1)
-		if dt := run.ProcessCPU() - t0 - st.depCPU; dt > c02WorkLimit {
+		dt := run.ThreadCPU() - t0 - st.depCPU
+		c.MaxF("max_cpu_seconds_of_one_input", dt)
+		if dt > c02WorkLimit {
+			st.slow++
 			c.Violate("work-not-linear-in-input-length", map[string]interface{}{"family": family, "input": hx(st.orig), "bytes": len(b), "cpu_seconds": dt, "limit": c02WorkLimit})
 		}
 	}
@@ -322,8 +337,8 @@ func c02CheckBody(c *run.Ctx, st *c02State, b []byte, family string, salt uint64
 	if st.rz.NMut > 0 && st.rz.MaxAbs <= 1e5 && salt%4 == 0 {
 		c.Count("vec_renders", 1)
 		// a panic raised inside golang.org/x/image/vector is not ivg's (DESIGN 6.5); counted, sampled
-		v0 := run.ProcessCPU()
-		defer func() { st.depCPU += run.ProcessCPU() - v0 }()
+		v0 := run.ThreadCPU()
+		defer func() { st.depCPU += run.ThreadCPU() - v0 }()
 		c.GuardDep("Decode(Renderer+vec)", "golang.org/x/image/", detail, func() {
 			if st.img == nil {
 				st.img = image.NewRGBA(image.Rect(0, 0, 72, 72))
